@@ -106,6 +106,20 @@ Theorem C13_producers_are_quiet : forall c pes, Forall env_ok pes -> quiet c (in
 Proof. exact ptrace_quiet. Qed.
 Print Assumptions C13_producers_are_quiet.
 
+(* ... also when some producers have already finished when the subscription is made (ComponentState.stageIn subscribes
+   to the living ones only); and the producer-level scripts that the correspondence runs through the REAL
+   ComponentState.stageIn subscription (run_steps3) are such producer histories *)
+Theorem C13_producer_scripts_are_quiet : forall c al l,
+  Forall env_ok (flats3 l) ->
+  let s0 := if all_dead al then step c (init c) Notify else init c in
+  snd (run_steps3 c al s0 l) = run c (init c) (ptrace_from al (flats3 l)) /\
+  quiet c (init c) (ptrace_from al (flats3 l)).
+Proof.
+  intros c al l H. cbv zeta. split; [|apply ptrace_from_quiet, H].
+  rewrite run_steps3_state. unfold ptrace_from. destruct (all_dead al); reflexivity.
+Qed.
+Print Assumptions C13_producer_scripts_are_quiet.
+
 Theorem C13_sees_final_output_producers : forall c pes,
   c_has_delay c = false -> Forall env_ok pes ->
   let s := run c (init c) (ptrace c pes) in
